@@ -61,8 +61,9 @@ impl SignedRegister {
 
     /// Verfies a SignedRegister
     pub fn verify(&self) -> Result<()> {
+        // `add_op` admits up to MAX_REG_NUM_ENTRIES entries, so a full register is still valid.
         let reg_size = self.ops.len();
-        if reg_size >= MAX_REG_NUM_ENTRIES as usize {
+        if reg_size > MAX_REG_NUM_ENTRIES as usize {
             return Err(Error::TooManyEntries(reg_size));
         }
 
